@@ -25,17 +25,27 @@ Definition dec_cframe (v : val) : cframe :=
   {| c_video := as_bool (nthv 0 v); c_dts := as_int (nthv 1 v); c_pts := as_int (nthv 2 v);
      c_pay := as_bytes (nthv 3 v) |}.
 
-(* mux case = (mode sps pps asc frames); mode only selects the Go entry point *)
+(* event: a source frame, or (2 sps pps) = the shared video meta gets these parameter sets *)
+Definition dec_event (v : val) : mevent :=
+  match nthv 0 v with
+  | VI 2 => EvSet (as_bytes (nthv 1 v)) (as_bytes (nthv 2 v))
+  | _ => EvFrame (dec_cframe v)
+  end.
+
+(* mux case = (mode sps pps asc events); sps pps = the meta when the muxer is created;
+   mode only selects the Go entry point *)
 Definition c09_asc (c : val) : asc :=
   match asc_decode2 (as_bytes (nthv 3 c)) with
   | Some a => a
   | None => {| asc_obj := 0; asc_sidx := 0; asc_chan := 0 |}
   end.
-Definition c09_cframes (c : val) : list cframe := map dec_cframe (as_list (nthv 4 c)).
+Definition c09_events (c : val) : list mevent := map dec_event (as_list (nthv 4 c)).
+Definition c09_aframes (c : val) : list aframe :=
+  annotate (as_bytes (nthv 1 c)) (as_bytes (nthv 2 c)) (c09_events c).
 
 (* observation: (0 bytes) | (1) = panic *)
 Definition x_C09_mux (c : val) : val :=
-  match mux_all (as_bytes (nthv 1 c)) (as_bytes (nthv 2 c)) (c09_asc c) (c09_cframes c) with
+  match mux_events (as_bytes (nthv 1 c)) (as_bytes (nthv 2 c)) (c09_asc c) (c09_events c) with
   | MuxBytes b => VL [VI 0; VB b]
   | MuxPanic => VL [VI 1]
   end.
@@ -44,7 +54,7 @@ Definition x_C09_mux_ok (v : val) : val :=
   let c := nthv 0 v in let obs := nthv 1 v in
   vbool (match obs with
          | VL [VI 0; VB out] =>
-             ok_mux (as_bytes (nthv 1 c)) (as_bytes (nthv 2 c)) (c09_asc c) (c09_cframes c) out
+             ok_muxa (c09_asc c) (c09_aframes c) out
          | _ => false
          end).
 
@@ -54,17 +64,17 @@ Definition x_C09_mux_loose_ok (v : val) : val :=
   let c := nthv 0 v in let obs := nthv 1 v in
   vbool (match obs with
          | VL [VI 0; VB out] =>
-             ok_mux (as_bytes (nthv 1 c)) (as_bytes (nthv 2 c)) (c09_asc c) (c09_cframes c) out
+             ok_muxa (c09_asc c) (c09_aframes c) out
          | VL [VI 1] => true
          | _ => false
          end).
 
 (* the pre-repair packetizer (in-band SPS/PPS/AUD written behind an empty header), for the record *)
 Definition x_C09_mux_prefix (c : val) : val :=
-  let sps := as_bytes (nthv 1 c) in let pps := as_bytes (nthv 2 c) in
-  let fs := fold_right (fun cf acc =>
-              match (if c_video cf then packetize_h264_prefix sps pps cf else packetize_aac (c09_asc c) cf) with
-              | PkFrame f => f :: acc | _ => acc end) [] (c09_cframes c) in
+  let fs := fold_right (fun af acc =>
+              let cf := a_c af in
+              match (if c_video cf then packetize_h264_prefix (a_sps af) (a_pps af) cf else packetize_aac (c09_asc c) cf) with
+              | PkFrame f => f :: acc | _ => acc end) [] (c09_aframes c) in
   VL [VI 0; VB (ts_write_all fs)].
 
 (* component streams *)
@@ -78,11 +88,41 @@ Definition x_C09_crc (c : val) : val := VI (crc32_mpeg (as_bytes c)).
    observation = (0 (segment bytes ...)) *)
 Definition x_C09_hls_ok (v : val) : val :=
   let c := nthv 0 v in let obs := nthv 1 v in
-  let fs := c09_cframes c in
-  let vids := removelast (filter (fun f => c_video f && src_carried f) fs) in
-  let auds := filter (fun f => negb (c_video f) && src_carried f) fs in
+  let fs := c09_aframes c in
+  let vids := removelast (filter (fun f => c_video (a_c f) && asrc_carried f) fs) in
+  let auds := map a_c (filter (fun f => negb (c_video (a_c f)) && asrc_carried f) fs) in
   vbool (match obs with
          | VL [VI 0; VL segs] =>
-             ok_hls (as_bytes (nthv 1 c)) (as_bytes (nthv 2 c)) (c09_asc c) vids auds (map as_bytes segs)
+             ok_hls (c09_asc c) vids auds (map as_bytes segs)
+         | _ => false
+         end).
+
+(* end to end: media.NewStream with an SDP without sprop-parameter-sets, fed with RTP.  The
+   H.264 depacketizer stores the first in-band SPS / PPS into the shared meta (only while the
+   field is empty) and forwards frames once both are known; the generator starts every case
+   with SPS, PPS.  [inband] turns the source NAL list into events accordingly. *)
+Fixpoint inband (sps pps : bytes) (cs : list cframe) : list mevent :=
+  match cs with
+  | [] => []
+  | c :: r =>
+      match nal_type (c_pay c) with
+      | Some 7 => match sps with
+                  | [] => EvSet (c_pay c) pps :: EvFrame c :: inband (c_pay c) pps r
+                  | _ => EvFrame c :: inband sps pps r
+                  end
+      | Some 8 => match pps with
+                  | [] => EvSet sps (c_pay c) :: EvFrame c :: inband sps (c_pay c) r
+                  | _ => EvFrame c :: inband sps pps r
+                  end
+      | _ => EvFrame c :: inband sps pps r
+      end
+  end.
+
+Definition x_C09_e2e_ok (v : val) : val :=
+  let c := nthv 0 v in let obs := nthv 1 v in
+  let fs := annotate [] [] (inband [] [] (map dec_cframe (as_list (nthv 4 c)))) in
+  let vids := removelast (filter (fun f => c_video (a_c f) && asrc_carried f) fs) in
+  vbool (match obs with
+         | VL [VI 0; VL segs] => ok_hls_es vids (map as_bytes segs)
          | _ => false
          end).
